@@ -3,7 +3,7 @@
    Schema/StoreModel.v, the vocabulary Spec/StoreSpec.v. *)
 From PyGql Require Import Spec.StoreSpec Proofs.StoreProofs Proofs.StoreHeal Proofs.StoreLoop
      Proofs.StoreFrame Proofs.StoreClone Proofs.StoreOps Proofs.StoreTerm Proofs.StoreObserve
-     Spec.StoreExtSpec Proofs.StoreExtendP Proofs.StoreExtPres Proofs.StoreVis Proofs.StoreVisM Proofs.StoreCloneP Proofs.StoreDesc Proofs.StoreXform Proofs.StoreCamelC Proofs.StoreGen Proofs.StoreVisC Proofs.StoreSim Proofs.StoreCloneO.
+     Spec.StoreExtSpec Proofs.StoreExtendP Proofs.StoreExtPres Proofs.StoreVis Proofs.StoreVisM Proofs.StoreCloneP Proofs.StoreDesc Proofs.StoreXform Proofs.StoreCamelC Proofs.StoreGen Proofs.StoreVisC Proofs.StoreSim Proofs.StoreCloneO Proofs.StoreReloc.
 Local Open Scope N_scope.
 
 (* Schema(query, mutation, subscription, directives, types): whenever the
@@ -334,28 +334,51 @@ Theorem C14_clone_observe_equal : forall fuel m s m' s',
 Proof. exact clone_observe_equal_ok. Qed.
 Print Assumptions C14_clone_observe_equal.
 
-(* ... hence cloning is repeatable: a clone taken after any sequence of
-   visibility / camel-case / schema-directive / healing operations on an
-   earlier clone has the observable dump of a clone taken before (C14_repeatable
-   for clone; the hypotheses on the source are asked in both heaps). *)
-Theorem C14_clone_repeatable : forall fuel m s ops m1 c m' c' ma ra mb rb,
-  clone_ok fuel m s -> clone_ok fuel m' s ->
-  Forall (vop_ok (m_next m)) ops ->
-  clone fuel m s = Ok (m1, c) -> run_vops fuel ops m1 c = Ok (m', c') ->
+(* Repeatability at full strength: the observable result of an operation on a
+   source does not depend on the heap it is run in -- in particular not on the
+   operations applied to the same source, or to anything else, before.  For
+   every two heaps m (before) and m' (later): if m' kept every cell below m's
+   allocation pointer (what C14_source_untouched / C14_in_place_frame /
+   C14_extend_source_untouched establish for every clone-based or owned
+   in-place operation), both are heaps (nothing at or above the allocation
+   pointer; [heap_below]: no cell of m mentions an oid that is not allocated
+   yet) and the source's record only mentions objects of m, then
+   transform_schema(source, t) run in m' gives the same [observe] dump as run
+   in m -- for every visitor that commutes with relocation of fresh objects
+   ([relocatable]: it does not inspect object identities beyond equality),
+   which VisibilitySchemaTransform under any predicates and
+   CamelCaseSchemaTransform under any renaming are.  No closedness or
+   well-formedness of the source is needed.  Proof (Proofs/StoreReloc.v): every
+   function of the model -- Schema(...), clone, the visitor combinators, the
+   healing visitor, _replace_types_and_directives, the loop, the cache
+   rebuild, observe itself -- commutes with the relocation "identity below
+   the old allocation pointer, shift above" ([msim]); the later heap holds the
+   image of the earlier one ([later_msim]). *)
+Theorem C14_repeatable : forall fuel v m m' s ma ra mb rb,
+  fresh_ok m -> fresh_ok m' -> heap_below m -> 5 < m_next m -> m_next m <= m_next m' ->
+  (forall o, o < m_next m -> mget m' o = mget m o) -> schema_below (m_next m) s ->
+  relocatable v ->
+  transform fuel v m s = Ok (ma, ra) -> transform fuel v m' s = Ok (mb, rb) ->
+  observe mb (touch_poss mb rb) = observe ma (touch_poss ma ra).
+Proof. exact transform_relocatable. Qed.
+Print Assumptions C14_repeatable.
+
+Theorem C14_repeatable_vis : forall p, relocatable (vis_visitor p).
+Proof. exact vis_relocatable. Qed.
+Print Assumptions C14_repeatable_vis.
+Theorem C14_repeatable_camel : forall c, relocatable (camel_visitor c).
+Proof. exact camel_relocatable. Qed.
+Print Assumptions C14_repeatable_camel.
+
+(* the same for Schema.clone: a clone taken later has the dump of a clone
+   taken before (no [clone_ok] needed) *)
+Theorem C14_clone_repeatable : forall fuel m m' s ma ra mb rb,
+  fresh_ok m -> fresh_ok m' -> heap_below m -> 5 < m_next m -> m_next m <= m_next m' ->
+  (forall o, o < m_next m -> mget m' o = mget m o) -> schema_below (m_next m) s ->
   clone fuel m s = Ok (ma, ra) -> clone fuel m' s = Ok (mb, rb) ->
   observe mb (touch_poss mb rb) = observe ma (touch_poss ma ra).
-Proof. exact clone_repeatable. Qed.
+Proof. exact clone_relocatable. Qed.
 Print Assumptions C14_clone_repeatable.
-
-(* full statement (not proved): the result of an operation does not depend on
-   the operations applied to the same source before *)
-Definition C14_repeatable_full : Prop :=
-  forall fuel v m s ops m1 c m' c' ma ra mb rb,
-    fresh_ok m -> builtins_ok m -> closed m s -> wf_schema m s -> wf_builtins s ->
-    Forall (vop_ok (m_next m)) ops ->
-    clone fuel m s = Ok (m1, c) -> run_vops fuel ops m1 c = Ok (m', c') ->
-    transform fuel v m s = Ok (ma, ra) -> transform fuel v m' s = Ok (mb, rb) ->
-    observe mb (touch_poss mb rb) = observe ma (touch_poss ma ra).
 
 (* The healing loop "recursive calls until no type needs to be updated"
    terminates: any fuel above the measure [mu] -- the number of fields, input
